@@ -22,6 +22,7 @@ VEC   := ["vec", name] | ["vslice", name, a, b] | ["mrow", mat, i] | ["mcol", ma
        | ["mdiag", mat] | ["vscale", VEC, c] | ["vshift", VEC, c]
        | ["matvec", [[..]..], VEC]  constant array @ vector    | ["mvprod", mat, VEC]  MatrixVariable @ vector
        | ["vfn", fname, VEC] | ["vpow", VEC, k]   element-wise function / power
+       | ["vrsub", [c..], VEC] | ["vrdiv", [c..], VEC]   array - vector, array / vector (reflected operators)
 CON   := {"k":"s", "lhs":EXPR, "sense": "<="|">="|"==", "rhs": EXPR}
        | {"k":"v", "lhs":VEC,  "sense": ..., "rhs": number | [numbers]}   (list of constraints; A @ x <= b)
 """
@@ -127,7 +128,7 @@ def vec_mentioned(spec, vec):
         return acc
     if vec[0] in ("vscale", "vshift", "vpow"):
         return vec_mentioned(spec, vec[1])
-    if vec[0] in ("matvec", "vfn"):
+    if vec[0] in ("matvec", "vfn", "vrsub", "vrdiv"):
         return vec_mentioned(spec, vec[2])
     if vec[0] == "mvprod":
         return set(element_names(var_decl(spec, vec[1]))) | vec_mentioned(spec, vec[2])
@@ -141,7 +142,7 @@ def vec_len(spec, vec):
         return vec_len(spec, vec[1])
     if vec[0] == "matvec":
         return len(vec[1])
-    if vec[0] == "vfn":
+    if vec[0] in ("vfn", "vrsub", "vrdiv"):
         return vec_len(spec, vec[2])
     if vec[0] == "mvprod":
         return var_decl(spec, vec[1])["rows"]
@@ -233,7 +234,7 @@ def params_in(e, acc=None):
             stack.extend(e[2])
         elif t in ("vsum", "norm", "quad", "qform", "vpow"):
             stack.append(e[1])
-        elif t in ("matvec", "vfn", "mvprod"):
+        elif t in ("matvec", "vfn", "mvprod", "vrsub", "vrdiv"):
             stack.append(e[2])
         elif t == "bilin":
             stack.append(e[1])
@@ -317,6 +318,14 @@ def build_model(spec, params_as_constants=False):
                 m.params[d["name"]] = ("const", float(d["value"]))
             else:
                 m.params[d["name"]] = ox.Parameter(d["name"], d["value"])
+        elif d["kind"] == "array":
+            # ONE Parameter holding an array (vectorised evaluation of scenario data)
+            import numpy as np
+
+            if params_as_constants:
+                m.params[d["name"]] = ("aconst", [float(x) for x in d["values"]])
+            else:
+                m.params[d["name"]] = ox.Parameter(d["name"], np.array(d["values"], dtype=float))
         else:
             if params_as_constants:
                 m.params[d["name"]] = ("vconst", [float(x) for x in d["values"]])
@@ -390,6 +399,12 @@ def _build_vec(m, vec):
         return f(build_vec(m, vec[2]))
     if t == "vpow":
         return build_vec(m, vec[1]) ** vec[2]
+    if t in ("vrsub", "vrdiv"):
+        # reflected operators with an array on the left: c - x (distance to a point), c / x
+        import numpy as np
+
+        c = np.array(vec[1], dtype=float)
+        return c - build_vec(m, vec[2]) if t == "vrsub" else c / build_vec(m, vec[2])
     if t == "mvprod":
         # M @ v with a MatrixVariable M: a vector of bilinear expressions
         return m.vars[vec[1]] @ build_vec(m, vec[2])
@@ -429,7 +444,7 @@ def build_expr(m, e):
     if t == "param":
         p = m.params[e[1]]
         if isinstance(p, tuple):
-            return Constant(p[1])
+            return Constant(np.array(p[1], dtype=float)) if p[0] == "aconst" else Constant(p[1])
         return p
     if t == "pel":
         p = m.params[e[1]]
@@ -648,6 +663,10 @@ def eval_vec(spec, vec, pt, pv=None):
         return [_FN[vec[1]](x) for x in eval_vec(spec, vec[2], pt, pv)]
     if t == "vpow":
         return [x ** vec[2] for x in eval_vec(spec, vec[1], pt, pv)]
+    if t == "vrsub":
+        return [c - x for c, x in zip(vec[1], eval_vec(spec, vec[2], pt, pv))]
+    if t == "vrdiv":
+        return [c / x for c, x in zip(vec[1], eval_vec(spec, vec[2], pt, pv))]
     if t == "mvprod":
         d = var_decl(spec, vec[1])
         v = eval_vec(spec, vec[2], pt, pv)
